@@ -16,6 +16,7 @@ class MonitorState:
         self.enabled = True
         self.busy = False
         self.partial = 0
+        self.discarded = 0
         self.raise_on_fire = False
         self.skip_biclosed = False
 
@@ -184,10 +185,29 @@ def install_monitor():
         else:
             return
         if msg:
-            MON.fired.append((msg, type(value).__module__ + "." + type(value).__name__))
+            import weakref
+            try:
+                ref = weakref.ref(value)
+            except TypeError:
+                ref = (lambda v=value: v)
+            MON.fired.append((msg, type(value).__module__ + "." + type(value).__name__, ref))
             if MON.raise_on_fire:
                 raise _verif.InvariantViolation(msg)
     _verif.on_construct = on_construct
+
+
+def surviving_firings():
+    """Firings whose ill-typed object is still alive, i.e. was not a temporary that the
+    operation built and threw away: only those can have been handed back, yielded, cached or
+    stored.  (The statement is about diagrams obtained through the API.)"""
+    if not MON.fired:
+        return []
+    import gc
+    gc.collect()
+    alive = [(f[0], f[1]) for f in MON.fired if f[2]() is not None]
+    MON.discarded += len(MON.fired) - len(alive)
+    MON.fired.clear()
+    return alive
 
 
 def tree_id():
